@@ -30,11 +30,11 @@ Proof. rewrite skipn_app, Nat.sub_diag, skipn_all. reflexivity. Qed.
 
 (* ------------------------------------------------------------------ 1. chunks vs flat *)
 
-Lemma read_full_enough : forall cs n got, 0 < n -> n <= blen (concat cs) ->
-  exists cs', read_full n got cs = Got (got ++ firstn (N.to_nat n) (concat cs), cs')
+Lemma read_full_enough : forall cs n fresh, 0 < n -> n <= blen (concat cs) ->
+  exists cs', read_full n fresh cs = Got (firstn (N.to_nat n) (concat cs), cs')
               /\ concat cs' = skipn (N.to_nat n) (concat cs).
 Proof.
-  induction cs as [|c rest IH]; intros n got Hn Hle.
+  induction cs as [|c rest IH]; intros n fresh Hn Hle.
   - cbn [concat] in Hle. unfold blen in Hle. cbn [length] in Hle. lia.
   - cbn [concat] in *. rewrite blen_app in Hle. cbn [read_full].
     destruct (N.leb_spec n (blen c)) as [Hc|Hc].
@@ -42,23 +42,23 @@ Proof.
       assert (Hz : (N.to_nat n - length c = 0)%nat) by (unfold blen in Hc; lia).
       cbn [concat]. rewrite firstn_app, skipn_app, Hz. cbn [firstn skipn].
       rewrite app_nil_r. split; reflexivity.
-    + destruct (IH (n - blen c) (got ++ c)) as [cs' [E1 E2]]; [lia|lia|].
+    + destruct (IH (n - blen c) (fresh && is_nil c)%bool) as [cs' [E1 E2]]; [lia|lia|].
       exists cs'. rewrite E1, E2.
       assert (Hz : N.to_nat (n - blen c) = (N.to_nat n - length c)%nat) by (unfold blen; lia).
       rewrite firstn_app, skipn_app, Hz.
       rewrite (firstn_all2 c) by (unfold blen in Hc; lia).
       rewrite (skipn_all2 c) by (unfold blen in Hc; lia).
-      cbn [app]. rewrite app_assoc. split; reflexivity.
+      cbn [app]. split; reflexivity.
 Qed.
 
-Lemma read_full_short : forall cs n got, blen (concat cs) < n ->
-  read_full n got cs = Fail (match got ++ concat cs with [] => EEof | _ :: _ => EOther end).
+Lemma read_full_short : forall cs n fresh, blen (concat cs) < n ->
+  read_full n fresh cs = Fail (if (fresh && is_nil (concat cs))%bool then EEof else EOther).
 Proof.
-  induction cs as [|c rest IH]; intros n got Hlt.
-  - cbn [read_full concat]. rewrite app_nil_r. reflexivity.
+  induction cs as [|c rest IH]; intros n fresh Hlt.
+  - cbn [read_full concat is_nil]. rewrite andb_true_r. reflexivity.
   - cbn [concat] in *. rewrite blen_app in Hlt. cbn [read_full].
     destruct (N.leb_spec n (blen c)) as [Hc|Hc]; [lia|].
-    rewrite IH by lia. rewrite app_assoc. reflexivity.
+    rewrite IH by lia. destruct c; cbn [is_nil app]; rewrite ?andb_true_r, ?andb_false_r; reflexivity.
 Qed.
 
 (* relation between results over two connection types *)
@@ -78,9 +78,9 @@ Proof.
   destruct (N.eqb_spec n 0) as [->|Hn].
   - cbn [rel]. split; reflexivity.
   - destruct (N.leb_spec n (blen (concat cs))) as [Hle|Hlt].
-    + destruct (read_full_enough cs n [] ltac:(lia) Hle) as [cs' [E1 E2]].
-      rewrite E1. cbn [rel app]. split; [reflexivity|exact E2].
-    + rewrite read_full_short by exact Hlt. cbn [rel app]. reflexivity.
+    + destruct (read_full_enough cs n true ltac:(lia) Hle) as [cs' [E1 E2]].
+      rewrite E1. cbn [rel]. split; [reflexivity|exact E2].
+    + rewrite read_full_short by exact Hlt. cbn [rel andb]. destruct (concat cs); reflexivity.
 Qed.
 
 (* ------------------------------------------------------------------ 2. parametric simulation *)
